@@ -34,6 +34,41 @@ KERNELS = [
 ]
 
 
+
+def value_operands(fl, pn0, t, want=None):
+    """(name inside the helper, operand in the caller) for every scalar the helper receives: plain arguments, and
+    the fields of a struct argument built in the caller (a private `Policy { .. }` / `Update { .. }`)"""
+    out = []
+    for i, a in enumerate(t.args):
+        if a.place is None or i >= len(pn0):
+            if a.place is None and i < len(pn0):
+                out.append((pn0[i], a))
+            continue
+        # a struct passed by value / by copy: find the aggregate that built it
+        l = a.place.local
+        d = None
+        for _ in range(5):
+            d = fl.single_def(l)
+            if d is None or getattr(d, "rv", None) is None:
+                d = None
+                break
+            if d.rv.k == "use" and d.rv.ops and d.rv.ops[0].place is not None and not d.rv.ops[0].place.proj:
+                l = d.rv.ops[0].place.local
+                continue
+            break
+        if d is not None and d.rv.k == "aggr" and d.rv.j.get("ak") == "adt" and not a.place.proj and d.rv.j.get("fields"):
+            for fname, o in zip(d.rv.j.get("fields") or [], d.rv.ops):
+                out.append(("%s.%s" % (pn0[i], fname), o))
+        else:
+            out.append((pn0[i], a))
+
+    def ty(o):
+        return o.place.ty if o.place is not None else (o.c or {}).get("ty")
+    if want is not None:
+        out = [(n, o) for (n, o) in out if ty(o) == want]
+    return out
+
+
 def decision_table(ctx, prog, flows, effects, add_edge, helper, hcalls, repl):
     import pathsens
 
@@ -44,33 +79,7 @@ def decision_table(ctx, prog, flows, effects, add_edge, helper, hcalls, repl):
     pn0 = helper.param_names()
 
     def flag_operands(t):
-        """(atom name inside the helper, operand in add_edge) for every boolean the helper receives: plain bool
-        arguments, and the bool fields of a struct argument built in add_edge (a private `Policy { .. }`)"""
-        out = []
-        for i, a in enumerate(t.args):
-            if a.place is None or i >= len(pn0):
-                continue
-            if a.place.ty == "bool":
-                out.append((pn0[i], a))
-                continue
-            # a struct passed by value / by copy: find the aggregate that built it
-            l = a.place.local
-            d = None
-            for _ in range(5):
-                d = fl.single_def(l)
-                if d is None or getattr(d, "rv", None) is None:
-                    d = None
-                    break
-                if d.rv.k == "use" and d.rv.ops and d.rv.ops[0].place is not None and not d.rv.ops[0].place.proj:
-                    l = d.rv.ops[0].place.local
-                    continue
-                break
-            if d is not None and d.rv.k == "aggr" and d.rv.j.get("ak") == "adt" and not a.place.proj:
-                for fname, o in zip(d.rv.j.get("fields") or [], d.rv.ops):
-                    ty = o.place.ty if o.place is not None else (o.c or {}).get("ty")
-                    if ty == "bool":
-                        out.append(("%s.%s" % (pn0[i], fname), o))
-        return out
+        return value_operands(fl, pn0, t, want="bool")
 
     for t in hcalls:
         for (i, a) in flag_operands(t):
@@ -343,22 +352,29 @@ def run(ctx):
     lookups = [t for t in add_edge.calls() if t.callee and t.callee.short.endswith("Graph::get_edge_by_indexes")]
     for t in hcalls:
         # weight <- edge.weight ; exists <- pair lookup
-        wd = panic.norm(fl.describe(t.args[3], depth=8))
-        ctx.require(fmt_desc(wd).endswith(".weight") and "edge" in fmt_desc(wd), "R-C03-4", "weight-arg", "the cached weight is the new edge's weight", "the cached weight argument is %s" % fmt_desc(wd), loc_str(t.span))
-        sl = fl.slice_local(fl._op_reads(t.args[4]), data_only=True)
-        lk = [n_ for n_ in sl if n_[0] == "CALL" and add_edge.blocks[n_[1]].term.callee and add_edge.blocks[n_[1]].term.callee.short.endswith("Graph::get_edge_by_indexes")]
-        ok = bool(lk)
-        # ... and from nothing that is read from the adjacency stores themselves (they are being written)
-        adj_reads = sorted({field_of(("P", n_[1], n_[2])) for n_ in sl if n_[0] == "SRC" and field_of(("P", n_[1], n_[2])) in (SUCC | PRED)})
-        if adj_reads:
-            ok = False
-        # that lookup precedes every write of SUCC/PRED/EDGE stores
-        if ok:
-            lbb = lk[0][1]
-            for (bb, site, f, kind) in index_events(effects, add_edge):
-                via = site.callee.short.split("::")[-1] if getattr(site, "k", None) == "call" and site.callee else "assign"
-                if f in (SUCC | PRED | EDGE) and via != "add_node" and not add_edge.dominates(lbb, bb):
-                    ok = False
+        pn_h = helper.param_names()
+        wops = value_operands(fl, pn_h, t, want="f64")
+        wd = panic.norm(fl.describe(wops[0][1], depth=8)) if len(wops) == 1 else ("?", "%d f64 operands" % len(wops))
+        ctx.require(len(wops) == 1 and fmt_desc(wd).endswith(".weight") and "edge" in fmt_desc(wd), "R-C03-4", "weight-arg", "the cached weight is the new edge's weight", "the cached weight argument is %s" % fmt_desc(wd), loc_str(t.span))
+        ok = False
+        for (bn, bop) in value_operands(fl, pn_h, t, want="bool"):
+            sl = fl.slice_local(fl._op_reads(bop), data_only=True)
+            lk = [n_ for n_ in sl if n_[0] == "CALL" and add_edge.blocks[n_[1]].term.callee and add_edge.blocks[n_[1]].term.callee.short.endswith("Graph::get_edge_by_indexes")]
+            if not lk:
+                continue
+            ok = True
+            # ... and from nothing that is read from the adjacency stores themselves (they are being written)
+            adj_reads = sorted({field_of(("P", n_[1], n_[2])) for n_ in sl if n_[0] == "SRC" and field_of(("P", n_[1], n_[2])) in (SUCC | PRED)})
+            if adj_reads:
+                ok = False
+            # that lookup precedes every write of SUCC/PRED/EDGE stores
+            if ok:
+                lbb = lk[0][1]
+                for (bb, site, f, kind) in index_events(effects, add_edge):
+                    via = site.callee.short.split("::")[-1] if getattr(site, "k", None) == "call" and site.callee else "assign"
+                    if f in (SUCC | PRED | EDGE) and via != "add_node" and not add_edge.dominates(lbb, bb):
+                        ok = False
+            break
         ctx.require(ok, "R-C03-4", "exists-arg", "`edge_already_exists` comes from the pair lookup made before any adjacency/edge store write", "`edge_already_exists` does not come from a pair lookup that precedes the writes", loc_str(t.span))
 
     # ------------------------------------------------------------------ R-C03-6 decision table
@@ -400,10 +416,10 @@ def run(ctx):
                             negs += 1
 
             def role(sd):
-                if sd in helper.param_names():
-                    return "new"
-                if "[" in sd or "index" in sd:
+                if "[" in sd or "index(" in sd:
                     return "old"
+                if sd in helper.param_names() or sd.split(".")[0] in helper.param_names():
+                    return "new"
                 return "?"
 
             rx, ry = role(sx), role(sy)
